@@ -124,6 +124,20 @@ func c19Modules(c *config, r *rng) []*ir.Module {
 				b.WriteString(d.text + "\n")
 			}
 		}
+		// the last sections WriteTo prints: use-list order directives of the module and of basic blocks
+		if i == 0 || r.chance(45) {
+			b.WriteString("@ulg = global i32 0\n@ulp = global i32* @ulg\n@ulq = global i32* @ulg\n")
+			b.WriteString("define void @ulf(i1 %c) {\nentry:\n\tbr i1 %c, label %bb, label %bb\nbb:\n\tret void\n}\n")
+			if i == 0 || r.coin() {
+				b.WriteString("uselistorder i32* @ulg, { 1, 0 }\n")
+			}
+			if i == 0 || r.coin() {
+				b.WriteString("uselistorder_bb @ulf, %bb, { 1, 0 }\n")
+				if r.coin() {
+					b.WriteString("uselistorder_bb @ulf, %bb, { 0, 1 }\n")
+				}
+			}
+		}
 		m, err := asm.ParseString("c19.ll", b.String())
 		if err != nil {
 			panic(fmt.Sprintf("c19 generator produced an unparsable module: %v\n%s", err, b.String()))
